@@ -168,6 +168,30 @@ theorem viewAnswers_honest {σ : Type}
     · cases h
     · injection h with h; left; exact h.symm
 
+/-- **the password error, about abstract answers**: an Open Session Response confirming the proposal, then a RAKP Message 2 with tag 0,
+    status OK and an AuthCode that is NOT the keyed hash of the exchange under the caller's password — the run ends with
+    `incorrectPassword` (not with a generic error, not with a session), and RAKP Message 3 is never sent -/
+theorem hsRun_incorrect_password {σ : Type} (C : Ops) (A : Answers σ) (o : Opts) (s : σ) (rm : Bytes) (osr : OpenSessionRsp) (rk2 : RAKP2)
+    (hh : HashAlg)
+    (a1 : (A.openSession s ⟨0, o.priv, 1, o.auth, o.integ, o.conf⟩).2 = .ok osr)
+    (ho : osr.tag = 0 ∧ osr.status = 0 ∧ osr.auth = o.auth ∧ osr.integ = o.integ ∧ osr.conf = o.conf)
+    (hauth : authHash osr.auth = some hh)
+    (a0 : (A.rand (A.openSession s ⟨0, o.priv, 1, o.auth, o.integ, o.conf⟩).1).2 = some rm)
+    (a2 : (A.rakp1 (A.rand (A.openSession s ⟨0, o.priv, 1, o.auth, o.integ, o.conf⟩).1).1
+            ⟨0, osr.bmcSessionID, rm, o.lookup, o.priv, o.user⟩).2 = .ok rk2)
+    (hr2 : rk2.tag = 0 ∧ rk2.status = 0) (hbad : rk2.authCode ≠ rakp2Code C hh o rm osr rk2) :
+    (hsRun C A o s).1 = .incorrectPassword ∧
+    (hsRun C A o s).2 = (A.rakp1 (A.rand (A.openSession s ⟨0, o.priv, 1, o.auth, o.integ, o.conf⟩).1).1
+            ⟨0, osr.bmcSessionID, rm, o.lookup, o.priv, o.user⟩).1 := by
+  obtain ⟨t1, s1, au1, in1, co1⟩ := ho
+  obtain ⟨t2, s2⟩ := hr2
+  have e1 : openChecks o osr = .ok osr := by simp [openChecks, t1, s1, au1, in1, co1]
+  have e2 : rakp2Checks C o rm osr rk2 = .error .incorrectPassword := by
+    simp [rakp2Checks, t2, s2, hauth, hbad]
+  have bind_ok : ∀ {α β : Type} (a : α) (f : α → Except HsRes β), ((Except.ok a : Except HsRes α) >>= f) = f a := fun _ _ => rfl
+  unfold hsRun
+  simp only [a1, bind_ok, e1, a0, a2, e2, and_self]
+
 open Bmc.GoOrch Bmc.Gen.Hs Bmc.Gen.Orch Bmc.Proofs.GenHs in
 /-- **C02 for the regenerated `newV2Session`.** For every option value, every random draw, every BMC (the answer functions of
     the three set-up exchanges and of cipher-suite discovery, over any state) and every keyed hash with the digest lengths:
@@ -209,5 +233,39 @@ theorem generated_newV2Session_sound (C : Ops) (hlen : ∀ a k m, (C.hmac a k m)
   | incorrectPassword => simp [goOutcome] at hok
   | error => simp [goOutcome] at hok
   | crashed => simp [goOutcome] at hok
+
+open Bmc.GoOrch Bmc.Gen.Hs Bmc.Gen.Orch Bmc.Proofs.GenHs in
+/-- **the password error, about `newV2Session` AS REGENERATED**: after `determineCipherSuite` proposed `cs`, a BMC (response structs of
+    the code's own types) that confirms the proposal and then sends a RAKP Message 2 with tag 0 and status OK whose AuthCode is NOT
+    the keyed hash of the exchange under the caller's password: the translated code returns `ErrIncorrectPassword` — never a session,
+    never a generic error — having sent no RAKP Message 3. -/
+theorem generated_newV2Session_incorrect_password (C : Ops) (hlen : ∀ a k m, (C.hmac a k m).length = a.size) {σ : Type} (fuel : Nat)
+    (sendS : σ → GetChannelCipherSuitesReq → σ × GetChannelCipherSuitesRsp × Bool)
+    (sendO : σ → Gen.Hs.OpenSessionReq → σ × Gen.Hs.OpenSessionRsp × Bool)
+    (sendR1 : σ → Gen.Hs.RAKPMessage1 → σ × Gen.Hs.RAKPMessage2 × Bool)
+    (sendR3 : σ → Gen.Hs.RAKPMessage3 → σ × Gen.Hs.RAKPMessage4 × Bool)
+    (tail : Bytes) (rr : σ → Nat → σ × Option Bytes) (opts : V2SessionOpts) (s0 s1 : σ) (cs : Gen.Dec.CipherSuite)
+    (hdet : bmc_V2SessionlessTransport_determineCipherSuite fuel sendS tail opts.cipherSuites s0 = (.ok cs, s1))
+    (hh : HashAlg) (s2 s3 s4 : σ) (gO : Gen.Hs.OpenSessionRsp) (draw : Bytes) (g2 : Gen.Hs.RAKPMessage2)
+    (hO : sendO s1 (goOpenReq ⟨0, (optsOf opts cs).priv, 1, (optsOf opts cs).auth, (optsOf opts cs).integ, (optsOf opts cs).conf⟩)
+            = (s2, gO, true))
+    (ho : (osrView gO).tag = 0 ∧ (osrView gO).status = 0 ∧ (osrView gO).auth = (optsOf opts cs).auth ∧
+          (osrView gO).integ = (optsOf opts cs).integ ∧ (osrView gO).conf = (optsOf opts cs).conf)
+    (hauth : authHash (osrView gO).auth = some hh)
+    (hR : rr s2 16 = (s3, some draw))
+    (h1 : sendR1 s3 (goRakp1 ⟨0, (osrView gO).bmcSessionID, GoKeys.copyArr 16 (List.replicate 16 0) draw, (optsOf opts cs).lookup,
+            (optsOf opts cs).priv, (optsOf opts cs).user⟩) = (s4, g2, true))
+    (hr2 : (rk2View g2).tag = 0 ∧ (rk2View g2).status = 0)
+    (hbad : (rk2View g2).authCode ≠
+      rakp2Code C hh (optsOf opts cs) (GoKeys.copyArr 16 (List.replicate 16 0) draw) (osrView gO) (rk2View g2)) :
+    bmc_V2SessionlessTransport_newV2Session fuel sendS sendO sendR1 sendR3 tail (Bmc.Lemmas.GenKeys.mac C) rr opts s0
+      = (.ok (.error "ErrIncorrectPassword"), s4) := by
+  rw [newV2Session_gen_eq C hlen fuel sendS sendO sendR1 sendR3 tail rr opts s0 s1 cs hdet]
+  obtain ⟨e1, e2⟩ := hsRun_incorrect_password C (viewAnswers sendO sendR1 sendR3 rr) (optsOf opts cs) s1
+    (GoKeys.copyArr 16 (List.replicate 16 0) draw) (osrView gO) (rk2View g2) hh
+    (by simp only [viewAnswers, hO, if_true]) ho hauth (by simp only [viewAnswers, hO, hR, Option.map_some])
+    (by simp only [viewAnswers, hO, hR, Option.map_some, h1, if_true]) hr2 hbad
+  rw [e1, e2]
+  simp only [viewAnswers, hO, hR, h1, goOutcome]
 
 end Bmc.Proofs.EndToEnd
